@@ -63,6 +63,28 @@ enum End {
     DropPermit { after: u8 },
 }
 
+/// One store call issued by a helper process that shares the writer's transaction ("Transaction
+/// II" in the `SqliteStore` docs: several processes write and read within one transaction).
+#[derive(Clone, Debug, Serialize, Deserialize)]
+enum HelperCall {
+    /// `insert_operation` of the next helper row (log `1000 + tag` of the transaction's author).
+    Op,
+    /// `associate(topic(tag), author(tag), 100 + k)`.
+    Assoc,
+    /// `get_latest_entry_tx` about the rows of transaction `about` (judged for other transactions).
+    ReadLatest { about: u16 },
+}
+
+/// 1–3 helper calls that are started (polled once: holding or queued on the transaction mutex)
+/// immediately before the writer's step `at` – or, for `at >= steps.len()`, immediately before the
+/// writer commits / rolls back / drops its permit; for a failing step, between the failing call and
+/// the early return. They are still in flight when the writer goes on.
+#[derive(Clone, Debug, Serialize, Deserialize)]
+struct Burst {
+    at: u8,
+    calls: Vec<HelperCall>,
+}
+
 #[derive(Clone, Debug, Serialize, Deserialize)]
 struct Tx {
     pre_yields: u8,
@@ -70,6 +92,10 @@ struct Tx {
     end: End,
     /// Whole transaction future dropped at a generated await point (file-backed store only).
     cancel: Option<CancelAt>,
+    /// Helper processes sharing this transaction (absent in replay files written before they
+    /// were added).
+    #[serde(default)]
+    helpers: Vec<Burst>,
 }
 
 /// The transaction future is dropped at its `nth` suspension inside the given phase (or at the
@@ -113,6 +139,19 @@ struct TxLog {
     /// bookkeeping of "everything": such a transaction can never have called commit.
     finished: bool,
     kind: &'static str,
+    /// Helper rows (log `1000 + tag`) whose insert returned Ok(true), in completion order.
+    h_ops: Vec<u32>,
+    /// Helper rows / triples whose call returned an error: outcome not asserted (the statement
+    /// says nothing about calls of a process sharing a transaction), tolerated present or absent
+    /// in a committed transaction.
+    h_maybe_ops: Vec<u32>,
+    h_maybe_assocs: Vec<u64>,
+    h_launched: u32,
+    /// Helper calls started and not yet returned (they hold the transaction mutex or queue on it).
+    h_pending: u32,
+    /// Set when the transaction ended while helper calls were pending: how it ended.
+    h_in_flight_at: Option<&'static str>,
+    h_errors: u32,
 }
 
 #[derive(Default)]
@@ -123,6 +162,8 @@ struct Shared {
     overlapped: bool,
     spared: bool,
     errors: Vec<String>,
+    /// Helper calls that did not complete within their first poll, finishing in tasks of their own.
+    helper_tasks: Vec<tokio::task::JoinHandle<()>>,
 }
 
 type Sh = Arc<Mutex<Shared>>;
@@ -145,6 +186,138 @@ fn cursor_of(tag: Tag, v: u32) -> Cursor<VerifyingKey, u64> {
     let mut st: LogHeights<VerifyingKey, u64> = BTreeMap::new();
     st.entry(author(tag).verifying_key()).or_default().insert(tag as u64, v);
     Cursor::new(format!("c10-{tag}"), st)
+}
+
+fn helper_log(tag: Tag) -> u64 {
+    1000 + tag as u64
+}
+
+/// Row written by a helper process sharing transaction `tag` (own log, own hashes, so that the
+/// writer's in-transaction reads about its own rows stay exact).
+fn helper_op(tag: Tag, j: u32) -> Operation<()> {
+    let body = [tag, j as u8, 0xc2, 0x0b];
+    let backlink = if j == 0 { None } else { Some(Hash::digest([tag, (j - 1) as u8, 0xc2])) };
+    fx::make_op(&author(tag), j, backlink, &body, true, ())
+}
+
+/// One helper call, recording its outcome in the same poll in which the store call returns (so
+/// `h_pending > 0` means: a helper holds the transaction mutex or is queued on it).
+fn helper_future(store: SqliteStore, sh: Sh, tag: Tag, call: HelperCall, k: u32, all_tags: Arc<Vec<Tag>>, snapshot: Arc<BTreeSet<Tag>>) -> Pin<Box<dyn Future<Output = ()> + Send>> {
+    Box::pin(async move {
+        let vk = author(tag).verifying_key();
+        match call {
+            HelperCall::Op => {
+                let op = helper_op(tag, k);
+                let r = store.insert_operation(&op.hash, &op, &helper_log(tag)).await;
+                let mut guard = sh.lock().unwrap();
+                let g = &mut *guard;
+                let l = g.txs.get_mut(&tag).unwrap();
+                l.h_pending -= 1;
+                match r {
+                    Ok(true) => l.h_ops.push(k),
+                    Ok(false) => g.errors.push(format!("insert_operation of a fresh row by a helper of transaction {tag} reported false")),
+                    Err(_) => {
+                        l.h_errors += 1;
+                        l.h_maybe_ops.push(k);
+                    }
+                }
+            }
+            HelperCall::Assoc => {
+                let j = 100 + k as u64;
+                let r = <SqliteStore as TopicStore<Topic, VerifyingKey, u64>>::associate(&store, &topic(tag), &vk, &j).await;
+                let mut guard = sh.lock().unwrap();
+                let g = &mut *guard;
+                let l = g.txs.get_mut(&tag).unwrap();
+                l.h_pending -= 1;
+                match r {
+                    Ok(true) => l.assocs.push(j),
+                    Ok(false) => g.errors.push(format!("associate of a fresh triple by a helper of transaction {tag} reported false")),
+                    Err(_) => {
+                        l.h_errors += 1;
+                        l.h_maybe_assocs.push(j);
+                    }
+                }
+            }
+            HelperCall::ReadLatest { about } => {
+                let about = all_tags[idx(about, all_tags.len())];
+                let r = <SqliteStore as LogStore<Operation<()>, VerifyingKey, u64, SeqNum, Hash>>::get_latest_entry_tx(
+                    &store,
+                    &author(about).verifying_key(),
+                    &(about as u64),
+                )
+                .await;
+                let mut guard = sh.lock().unwrap();
+                let g = &mut *guard;
+                g.txs.get_mut(&tag).unwrap().h_pending -= 1;
+                match r {
+                    // The writer's own rows change while the helper reads: only what the helper
+                    // sees of *other* transactions is judged (nothing or everything).
+                    Ok(got) if about != tag => {
+                        if let Err(e) = judge_visible(g, tag, &snapshot, about, got.map(|o| o.header.seq_num)) {
+                            g.errors.push(format!("helper read: {e}"));
+                        }
+                    }
+                    Ok(_) => {}
+                    Err(_) => g.txs.get_mut(&tag).unwrap().h_errors += 1,
+                }
+            }
+        }
+    })
+}
+
+/// Starts the helper calls of the bursts selected by `pick`: every call is polled exactly once
+/// here (it takes the transaction mutex and sends its statement, or queues on the mutex behind the
+/// previous one) and then finishes in a task of its own. No await point lies between that first
+/// poll and the caller's next action, and no helper call is ever *started* after the writer
+/// committed / rolled back / dropped its permit – what a late call does is not the writer's
+/// business.
+async fn launch(
+    store: &SqliteStore,
+    sh: &Sh,
+    tag: Tag,
+    bursts: &[Burst],
+    pick: impl Fn(u8) -> bool,
+    next_k: &mut u32,
+    all_tags: &Arc<Vec<Tag>>,
+    snapshot: &Arc<BTreeSet<Tag>>,
+) {
+    for burst in bursts.iter().filter(|b| pick(b.at)) {
+        for call in &burst.calls {
+            let k = *next_k;
+            *next_k += 1;
+            {
+                let mut g = sh.lock().unwrap();
+                let l = g.txs.get_mut(&tag).unwrap();
+                l.h_launched += 1;
+                l.h_pending += 1;
+            }
+            let mut fut = helper_future(store.clone(), sh.clone(), tag, call.clone(), k, all_tags.clone(), snapshot.clone());
+            // Always ready: no suspension (and so no cancellation point) here.
+            let first = std::future::poll_fn(|cx| Poll::Ready(fut.as_mut().poll(cx))).await;
+            if first.is_pending() {
+                let h = tokio::spawn(fut);
+                sh.lock().unwrap().helper_tasks.push(h);
+            }
+        }
+    }
+}
+
+/// Called immediately before the writer ends its transaction.
+fn note_end(sh: &Sh, tag: Tag, how: &'static str) {
+    let mut g = sh.lock().unwrap();
+    let l = g.txs.get_mut(&tag).unwrap();
+    if l.h_pending > 0 && l.h_in_flight_at.is_none() {
+        l.h_in_flight_at = Some(how);
+    }
+}
+
+fn panic_text(e: tokio::task::JoinError) -> String {
+    if e.is_panic() {
+        let p = e.into_panic();
+        p.downcast_ref::<&str>().map(|s| s.to_string()).or_else(|| p.downcast_ref::<String>().cloned()).unwrap_or_default()
+    } else {
+        "cancelled".to_string()
+    }
 }
 
 async fn yields(n: u8) {
